@@ -283,15 +283,244 @@ theorem dropCR_id (l : Bytes) (h : l.getLast? ≠ some 13) : dropCR l = l := by
     rfl
   · rfl
 
+/-! ### the read loop of `processLogFile` in the statement order the code has -/
+
+/-- the loop as it stands in the code: a (non-empty) line is delivered BEFORE `io.EOF` ends the function -/
+def stdLoop : List String := ["read", "return-err", "deliver", "return-eof"]
+def stdTrims : List String := ["\n", "\r"]
+
+theorem loopBody_std (chunk : Bytes) (eof : Bool) :
+    loopBody stdLoop chunk eof = (if chunk.isEmpty then [] else [chunk], eof) := by
+  cases eof <;> cases h : chunk.isEmpty <;> simp [loopBody, stdLoop, h]
+
+theorem readChunks_std_nil (acc : Bytes) :
+    readChunks stdLoop [] acc = if acc.isEmpty then [] else [acc.reverse] := by
+  simp [readChunks, loopBody_std]
+
+theorem readChunks_std_lf (r acc : Bytes) :
+    readChunks stdLoop (10 :: r) acc = (acc.reverse ++ [10]) :: readChunks stdLoop r [] := by
+  simp [readChunks, loopBody_std]
+
+theorem readChunks_std_other (x : UInt8) (r acc : Bytes) (hx : x ≠ 10) :
+    readChunks stdLoop (x :: r) acc = readChunks stdLoop r (x :: acc) := by
+  simp [readChunks, hx]
+
+/-- **no byte is dropped**: the raw chunks handed to the delivering branch, put one after the other, are
+the file (an unterminated last line included) -/
+theorem readChunks_std_flatten : ∀ (file acc : Bytes), (readChunks stdLoop file acc).flatten = acc.reverse ++ file := by
+  intro file
+  induction file with
+  | nil =>
+    intro acc
+    rw [readChunks_std_nil]
+    cases acc <;> simp
+  | cons x r ih =>
+    intro acc
+    by_cases hx : x = 10
+    · subst hx
+      rw [readChunks_std_lf, List.flatten_cons, ih []]
+      simp
+    · rw [readChunks_std_other x r acc hx, ih (x :: acc)]
+      simp
+
+/-- every chunk is a non-empty piece without `\n` before its last byte -/
+theorem readChunks_std_shape : ∀ (file acc : Bytes), (∀ x ∈ acc, x ≠ 10) →
+    ∀ ch ∈ readChunks stdLoop file acc, ch ≠ [] ∧ ∀ x ∈ ch.dropLast, x ≠ 10 := by
+  intro file
+  induction file with
+  | nil =>
+    intro acc hacc ch hch
+    rw [readChunks_std_nil] at hch
+    cases acc with
+    | nil => simp at hch
+    | cons a t =>
+      simp only [List.isEmpty_cons, Bool.false_eq_true, if_false, List.mem_singleton] at hch
+      subst hch
+      refine ⟨by simp, fun x hx => ?_⟩
+      have : x ∈ (a :: t).reverse := List.dropLast_subset _ hx
+      exact hacc x (List.mem_reverse.mp this)
+  | cons x r ih =>
+    intro acc hacc ch hch
+    by_cases hx : x = 10
+    · subst hx
+      rw [readChunks_std_lf, List.mem_cons] at hch
+      rcases hch with rfl | hch
+      · refine ⟨by simp, fun x hx => ?_⟩
+        rw [List.dropLast_concat] at hx
+        exact hacc x (List.mem_reverse.mp hx)
+      · exact ih [] (by simp) ch hch
+    · rw [readChunks_std_other x r acc hx] at hch
+      exact ih (x :: acc) (by
+        intro y hy
+        rcases List.mem_cons.mp hy with rfl | hy
+        · exact hx
+        · exact hacc y hy) ch hch
+
+/-- every chunk but the last ends in `\n` (so the chunks are the MAXIMAL newline-free pieces with their terminators) -/
+theorem readChunks_std_terminated : ∀ (file acc : Bytes),
+    ∀ ch ∈ (readChunks stdLoop file acc).dropLast, ch.getLast? = some 10 := by
+  intro file
+  induction file with
+  | nil =>
+    intro acc ch hch
+    rw [readChunks_std_nil] at hch
+    cases acc <;> simp at hch
+  | cons x r ih =>
+    intro acc ch hch
+    by_cases hx : x = 10
+    · subst hx
+      rw [readChunks_std_lf] at hch
+      by_cases hr : readChunks stdLoop r [] = []
+      · rw [hr] at hch; simp at hch
+      · rw [List.dropLast_cons_of_ne_nil hr, List.mem_cons] at hch
+        rcases hch with rfl | hch
+        · simp
+        · exact ih [] ch hch
+    · rw [readChunks_std_other x r acc hx] at hch
+      exact ih (x :: acc) ch hch
+
+/-! ### the trimmed lines are the specification's lines -/
+
+theorem strB_lf : strB "\n" = [10] := by decide
+theorem strB_cr : strB "\r" = [13] := by decide
+
+theorem trimLine_std (ch : Bytes) : trimLine stdTrims ch = trimSuffix [13] (trimSuffix [10] ch) := by
+  simp [trimLine, stdTrims, strB_lf, strB_cr]
+
+theorem hasSuffix_one (b : UInt8) (l : Bytes) : hasSuffix [b] l = (l.getLast? == some b) := by
+  unfold hasSuffix
+  rw [List.getLast?_eq_head?_reverse]
+  cases l.reverse with
+  | nil => simp
+  | cons y t =>
+    have : [b].isPrefixOf (y :: t) = (b == y) := by
+      simp [List.isPrefixOf]
+    rw [List.reverse_singleton, this, Bool.eq_iff_iff]
+    simp only [List.head?_cons, beq_iff_eq, Option.some.injEq]
+    exact ⟨Eq.symm, Eq.symm⟩
+
+theorem trimSuffix_concat (b : UInt8) (l : Bytes) : trimSuffix [b] (l ++ [b]) = l := by
+  unfold trimSuffix
+  rw [hasSuffix_one]
+  simp
+
+theorem trimSuffix_none (b : UInt8) (l : Bytes) (h : l.getLast? ≠ some b) : trimSuffix [b] l = l := by
+  unfold trimSuffix
+  rw [hasSuffix_one]
+  simp [h]
+
+theorem trimSuffix_cr (l : Bytes) : trimSuffix [13] l = dropCR l := by
+  by_cases h : l.getLast? = some 13
+  · obtain ⟨t, rfl⟩ : ∃ t, l = t ++ [13] := by
+      rcases List.eq_nil_or_concat l with rfl | ⟨t, y, rfl⟩
+      · simp at h
+      · rw [List.concat_eq_append] at h ⊢
+        simp at h; subst h; exact ⟨t, rfl⟩
+    rw [trimSuffix_concat]
+    simp [dropCR]
+  · rw [trimSuffix_none 13 l h, dropCR_id l h]
+
+theorem getLast?_ne_of_not_mem (b : UInt8) (l : Bytes) (h : ∀ x ∈ l, x ≠ b) : l.getLast? ≠ some b := by
+  intro hl
+  exact h b (List.mem_of_getLast? hl) rfl
+
+/-- with the loop in the order of the code, the delivered lines are `rawLines` (split at every `\n`, an
+unterminated last line counts) with one trailing `\r` removed -/
+theorem readChunks_std_lines : ∀ (file acc : Bytes), (∀ x ∈ acc, x ≠ 10) →
+    (readChunks stdLoop file acc).map (trimLine stdTrims) = (rawLines file acc).map dropCR := by
+  intro file
+  induction file with
+  | nil =>
+    intro acc hacc
+    rw [readChunks_std_nil]
+    cases acc with
+    | nil => simp [rawLines]
+    | cons a t =>
+      simp only [List.isEmpty_cons, Bool.false_eq_true, if_false, rawLines, List.map_cons, List.map_nil]
+      rw [trimLine_std, trimSuffix_none 10 _ (getLast?_ne_of_not_mem 10 _ (fun x hx => hacc x (List.mem_reverse.mp hx))),
+        trimSuffix_cr]
+  | cons x r ih =>
+    intro acc hacc
+    by_cases hx : x = 10
+    · subst hx
+      rw [readChunks_std_lf]
+      simp only [rawLines, List.map_cons]
+      rw [ih [] (by simp), trimLine_std, trimSuffix_concat, trimSuffix_cr]
+    · rw [readChunks_std_other x r acc hx]
+      have : rawLines (x :: r) acc = rawLines r (x :: acc) := by
+        rw [rawLines]
+        exact hx
+      rw [this]
+      exact ih (x :: acc) (by
+        intro y hy
+        rcases List.mem_cons.mp hy with rfl | hy
+        · exact hx
+        · exact hacc y hy)
+
+theorem scanLinesWith_std (file : Bytes) :
+    scanLinesWith "reader" stdLoop stdTrims file = (rawLines file []).map dropCR := by
+  unfold scanLinesWith
+  simp only [show ("reader" = "scanner") = False by decide, if_false]
+  exact readChunks_std_lines file [] (by simp)
+
 /-- **the reader (after the repair: no length limit) returns exactly the lines written**, provided no
 line contains a line feed or ends in a carriage return -/
 theorem scanLines_join (ls : List Bytes) (h : ∀ l ∈ ls, (∀ x ∈ l, x ≠ 10) ∧ l.getLast? ≠ some 13) :
-    scanLinesWith "reader" (ls.flatMap fun l => l ++ [10]) = ls := by
-  unfold scanLinesWith
-  rw [rawLines_join ls (fun l hl => (h l hl).1)]
-  simp only [show ("reader" = "scanner") = False by decide, if_false]
+    scanLinesWith "reader" stdLoop stdTrims (ls.flatMap fun l => l ++ [10]) = ls := by
+  rw [scanLinesWith_std, rawLines_join ls (fun l hl => (h l hl).1)]
   rw [List.map_congr_left (fun l hl => dropCR_id l (h l hl).2)]
   simp
+
+/-- an unterminated piece without `\n` is one line -/
+theorem rawLines_tail (l acc : Bytes) (hl : ∀ x ∈ l, x ≠ 10) :
+    rawLines l acc = if (acc.reverse ++ l).isEmpty then [] else [acc.reverse ++ l] := by
+  induction l generalizing acc with
+  | nil => cases acc <;> simp [rawLines]
+  | cons x t ih =>
+    have hx : x ≠ 10 := hl x List.mem_cons_self
+    rw [rawLines]
+    · rw [ih (x :: acc) (fun y hy => hl y (List.mem_cons_of_mem _ hy))]
+      simp
+    · exact hx
+
+theorem rawLines_join_append (ls : List Bytes) (rest : Bytes) (h : ∀ l ∈ ls, ∀ x ∈ l, x ≠ 10) :
+    rawLines ((ls.flatMap fun l => l ++ [10]) ++ rest) [] = ls ++ rawLines rest [] := by
+  induction ls with
+  | nil => rfl
+  | cons l r ih =>
+    simp only [List.flatMap_cons, List.append_assoc, List.cons_append]
+    rw [rawLines_line l _ [] (h l List.mem_cons_self)]
+    simp only [List.nil_append, List.reverse_nil]
+    rw [ih (fun m hm => h m (List.mem_cons_of_mem _ hm))]
+
+/-- **a file made of clean lines is read back as exactly these lines – with or without the final `\n`**
+(without it the last line must not be empty: an empty unterminated line is no line at all) -/
+theorem scanLines_fileOf (ls : List Bytes) (term : Bool)
+    (h : ∀ l ∈ ls, (∀ x ∈ l, x ≠ 10) ∧ l.getLast? ≠ some 13)
+    (hlast : term = false → ls.getLast? ≠ some []) :
+    scanLinesWith "reader" stdLoop stdTrims (fileOf ls term) = ls := by
+  cases term with
+  | true => exact scanLines_join ls h
+  | false =>
+    rcases List.eq_nil_or_concat ls with rfl | ⟨init, last, rfl⟩
+    · simp [fileOf, scanLinesWith_std, rawLines]
+    · rw [List.concat_eq_append] at h hlast ⊢
+      have hne : last ≠ [] := by
+        intro hl; apply hlast rfl; simp [hl]
+      have hfile : fileOf (init ++ [last]) false = (init.flatMap fun l => l ++ [10]) ++ last := by
+        simp only [fileOf, Bool.false_eq_true, if_false, List.flatMap_append, List.flatMap_cons, List.flatMap_nil,
+          List.append_nil]
+        rw [← List.append_assoc, List.dropLast_concat]
+      rw [hfile, scanLinesWith_std,
+        rawLines_join_append init last (fun l hl => (h l (List.mem_append_left _ hl)).1),
+        rawLines_tail last [] (h last (by simp)).1]
+      have : last.isEmpty = false := by
+        cases last with
+        | nil => exact absurd rfl hne
+        | cons a t => rfl
+      simp only [List.reverse_nil, List.nil_append, this, Bool.false_eq_true, if_false]
+      rw [List.map_congr_left (fun l hl => dropCR_id l (h l hl).2)]
+      simp
 
 end AcraModel.AuditLog
 
@@ -346,6 +575,124 @@ theorem rendered_clean (formatted tag : Bytes) (new : Bool) (hf : ∀ x ∈ form
     rw [List.getLast?_append]
     intro h
     cases hl : (splitTok ++ tagPart tag new).getLast? with
+    | none => exact hne (List.getLast?_eq_none_iff.mp hl)
+    | some z =>
+      rw [hl] at h
+      have hz : z = 13 := by simpa [Option.or] using h
+      subst hz
+      exact (hap _ (List.mem_of_getLast? hl)).2 rfl
+
+end AcraModel.AuditLog
+
+namespace AcraModel.AuditLog
+open AcraModel Generated.AuditLog
+
+/-! ### a line cut inside its integrity value -/
+
+/-- cutting at the last split token when what follows it contains no space (a piece of a hex string) -/
+theorem cut_last_nospace (data t : Bytes) (ht : ∀ x ∈ t, x ≠ 32) :
+    cut .last (data ++ splitTok ++ t) = some (data, t) := by
+  have htok : splitTok = 32 :: strB "integrity=" := by decide
+  have hl : lastIndexOf splitTok (splitTok ++ t).tail = none := by
+    rw [htok, List.cons_append, List.tail_cons]
+    have := lastIndexOf_skip 32 (strB "integrity=") (strB "integrity=" ++ t) [] (by
+      intro x hx
+      rcases List.mem_append.mp hx with h | h
+      · have hc : ∀ y ∈ strB "integrity=", y ≠ 32 := by decide
+        exact hc x h
+      · exact ht x h) rfl
+    simpa using this
+  have := lastIndexOf_append_tok splitTok data t hl (by rw [htok]; simp)
+  simp only [cut]
+  rw [this]
+  have e1 : (data ++ splitTok ++ t).take data.length = data := by simp [List.append_assoc]
+  have e2 : (data ++ splitTok ++ t).drop (data.length + splitTok.length) = t := by
+    rw [← List.length_append]
+    exact List.drop_left
+  simp only [Option.map_some, e1, e2]
+
+theorem hasSuffix_new_nospace (t : Bytes) (ht : ∀ x ∈ t, x ≠ 32) : hasSuffix newSuffix t = false := by
+  cases h : hasSuffix newSuffix t with
+  | false => rfl
+  | true =>
+    exfalso
+    unfold hasSuffix at h
+    have hp := List.isPrefixOf_iff_prefix.mp h
+    have h32 : (32 : UInt8) ∈ newSuffix.reverse := by decide
+    have : (32 : UInt8) ∈ t.reverse := hp.subset h32
+    exact ht 32 (List.mem_reverse.mp this) rfl
+
+theorem hexDec_length : ∀ (n : Nat) (p t : Bytes), p.length ≤ n → hexDec p = some t → p.length = 2 * t.length := by
+  intro n
+  induction n with
+  | zero =>
+    intro p t hn h
+    cases p with
+    | nil => simp [hexDec] at h; subst h; rfl
+    | cons _ _ => simp at hn
+  | succ n ih =>
+    intro p t hn h
+    match p, h with
+    | [], h => simp [hexDec] at h; subst h; rfl
+    | [_], h => simp [hexDec] at h
+    | a :: b :: r, h =>
+      simp only [hexDec, bind, Option.bind] at h
+      cases hx : nibVal a with
+      | none => simp [hx] at h
+      | some x =>
+        cases hy : nibVal b with
+        | none => simp [hx, hy] at h
+        | some y =>
+          cases hr : hexDec r with
+          | none => simp [hx, hy, hr] at h
+          | some t' =>
+            simp [hx, hy, hr, pure] at h
+            subst h
+            have := ih r t' (by simp at hn; omega) hr
+            simp [this]; omega
+
+theorem hexEnc_length (b : Bytes) : (hexEnc b).length = 2 * b.length := by
+  induction b with
+  | nil => rfl
+  | cons y r ih =>
+    have e : hexEnc (y :: r) = hexNib (y.toNat / 16) :: hexNib (y.toNat % 16) :: hexEnc r := by
+      simp [hexEnc]
+    rw [e]; simp [ih]; omega
+
+/-- what the plaintext parser makes of a line whose integrity part is a piece `p` of a hex string: a parse
+error when `p` is not hex of even length, else an entry with the decoded (shorter) tag – never a skipped line -/
+theorem parse_cut_tag (data p : Bytes) (hp : ∀ x ∈ p, x ≠ 32) :
+    parseLine .last false (data ++ splitTok ++ p) =
+      match hexDec p with
+      | none => .bad
+      | some t => .entry ⟨data, t, false, isEndData data⟩ := by
+  unfold parseLine
+  rw [rendered_nonempty, cut_last_nospace data p hp]
+  simp only [Bool.false_eq_true, if_false, hasSuffix_new_nospace p hp]
+  cases hexDec p <;> rfl
+
+/-- such a line is clean (no line feed, no trailing carriage return) when the entry has no line feed -/
+theorem cut_line_clean (data p : Bytes) (hd : ∀ x ∈ data, x ≠ 10) (hp : ∀ x ∈ p, plainByte x = true) :
+    (∀ x ∈ data ++ splitTok ++ p, x ≠ 10) ∧ (data ++ splitTok ++ p).getLast? ≠ some 13 := by
+  have htokp : ∀ y ∈ splitTok, y ≠ 10 ∧ y ≠ 13 := by decide
+  have hap : ∀ x ∈ splitTok ++ p, x ≠ 10 ∧ x ≠ 13 := by
+    intro x hx
+    rcases List.mem_append.mp hx with h | h
+    · exact htokp x h
+    · exact plain_not_eol x (hp x h)
+  constructor
+  · intro x hx
+    rw [List.append_assoc] at hx
+    rcases List.mem_append.mp hx with h | h
+    · exact hd x h
+    · exact (hap x h).1
+  · rw [List.append_assoc]
+    have hne : splitTok ++ p ≠ [] := by
+      have htok : splitTok = 32 :: strB "integrity=" := by decide
+      rw [htok]; simp
+    rw [List.getLast?_append]
+    intro h
+    cases hl : (splitTok ++ p).getLast? with
     | none => exact hne (List.getLast?_eq_none_iff.mp hl)
     | some z =>
       rw [hl] at h
